@@ -34,7 +34,7 @@ def _cases(draw, tier):
     n, d, C = p["n"], p["d"], p["C"]
     ks = []
     j = draw(st.integers(M.T1980 // C + 1, M.T2100 // C - 10))
-    batch = draw(st.sampled_from([0, 0, 1, 1, 2]))
+    batch = draw(st.sampled_from([0, 0, 1, 1, 2, 3, 3]))
     for _ in range(draw(st.integers(1, 5 if batch == 0 else 8))):
         mode = draw(st.integers(0, 9))
         if mode < 8:
@@ -48,7 +48,7 @@ def _cases(draw, tier):
     # the writer does not require ascending order across calls: write in a drawn order
     order = draw(st.permutations(list(range(len(ks)))))
     # batch: 0 = one sample per write() call (drawn order), 1 = ONE write() call with all (ascending) samples,
-    # 2 = two calls (first half, second half)
+    # 2 = two calls (first half, second half), 3 = ONE call with the samples in the drawn order
     return dict(p, ks=ks, order=list(order), batch=batch)
 
 
@@ -85,6 +85,8 @@ def run_case(case):
             calls = [[i] for i in case.get("order", range(len(ks)))]
         elif batch == 1:
             calls = [list(range(len(ks)))]
+        elif batch == 3:
+            calls = [list(case.get("order", range(len(ks))))]  # ONE call with the samples in the drawn (unsorted) order
         else:
             h = len(ks) // 2
             calls = [list(range(h)), list(range(h, len(ks)))]
